@@ -361,7 +361,7 @@ def replay(u, harness, hdefs, cex_path, translated=False):
 class Query:
     def __init__(self, qid, unit, harness, udefs=None, hdefs=None, unwind=None, unwindset=None, safety=False,
                  timeout=600, expect='pass', kf=None, diff=200, solver='auto', shim=True, check_nsw=False,
-                 note='', bounds=None, mem_gb=12, extra=None, want='property', sat_cap=40, loops=None):
+                 note='', bounds=None, mem_gb=12, extra=None, want='property', sat_cap=40, loops=None, kf_marker=None):
         self.qid, self.unit, self.harness = qid, unit, harness
         self.udefs, self.hdefs = udefs or {}, hdefs or {}
         self.unwind, self.unwindset, self.safety, self.timeout = unwind, unwindset, safety, timeout
@@ -376,6 +376,7 @@ class Query:
         self.mem_gb = mem_gb
         self.extra = extra
         self.want = want          # which failure class decides this query: 'property' or 'safety'
+        self.kf_marker = kf_marker  # text the native replay must print for a counter-example to count as the known finding
         self.loops = loops        # [(regex over 'file:function', bound)] -> --unwindset via debug locations
         self.sat_cap = sat_cap    # solver='auto': seconds given to the SAT back end before falling back to cbmc --cvc5
 
@@ -466,6 +467,7 @@ def run_query(q, prop, seed, outdir):
     r['replay_out'] = o[-1500:]
     if rc == 1:
         r['verdict'] = 'CEX'
+        r['in_known_class'] = bool(q.kf_marker) and (q.kf_marker in o)
     else:
         rc2, o2 = replay(u, q.harness, q.hdefs, cex, translated=True)
         r.update(verdict='ERROR', error='counter-example did not reproduce on the real code (rc=%s; translated rc=%s): model/stub imprecision, not reported' % (rc, rc2))
